@@ -470,7 +470,7 @@ func (v *validator) function(where string, f *ir.Function, ep *ir.EntryPoint) {
 				v.add(RuleHandleRange, ew, "%s: operand [%d] out of range (%d expressions)", kindName(kind), op, n)
 				ok = false
 			} else if int(op) >= i && !ssaKind {
-				v.add(RuleExprOrder, ew, "%s: operand [%d] is not an earlier expression", kindName(kind), op)
+				v.addX(Issue{Expr: i, Value: -1}, RuleExprOrder, ew, "%s: operand [%d] is not an earlier expression", kindName(kind), op)
 				ok = false
 			}
 		}
